@@ -142,8 +142,10 @@ class EffectivePotential(ABC):
         guesses = initialGuess.resizeFields(numPoints, initialGuess.numFields())
         T = np.resize(T, (numPoints))
 
-        resValue = np.empty_like(T)
-        resLocation = np.empty_like(guesses)
+        # float arrays whatever the input's dtype (integer guesses or temperatures
+        # would otherwise truncate the minimum found)
+        resValue = np.empty_like(T, dtype=float)
+        resLocation = np.empty_like(guesses, dtype=float)
 
         for i in range(0, numPoints):
 
